@@ -717,7 +717,7 @@ func TestPropBackendsAgree(t *testing.T) {
 	defer os.RemoveAll(base)
 	pl := &pool{base: base}
 	defer pl.close()
-	stats.Check(t, stats.Budget{Quick: 2500, Thorough: 30000},
+	stats.Check(t, stats.Budget{Quick: 8000, Thorough: 30000},
 		"rapid state machine (direct writes, batches of 4 kinds, Update/Write helpers, snapshots, iterator programs) on memory/pebble/pebblev2 vs sorted-map model",
 		func(rt *rapid.T, c *stats.Case) {
 			bk := pl.get()
@@ -732,7 +732,7 @@ func TestPropBackendsAgree(t *testing.T) {
 // TestPropReopen: committed data survives close/reopen of the Pebble backends and equals the model
 // (durability side of "write batches are all-or-nothing").
 func TestPropReopen(t *testing.T) {
-	stats.Check(t, stats.Budget{Quick: 40, Thorough: 600},
+	stats.Check(t, stats.Budget{Quick: 100, Thorough: 600},
 		"write sequences with interleaved close/reopen of Pebble v1/v2 directories; contents must equal the model after every reopen; non-trivial = reopen after a committed batch containing a range delete or a discarded batch",
 		func(rt *rapid.T, c *stats.Case) {
 			base := scratchBase()
@@ -812,7 +812,7 @@ func TestRaceReadersSeeAtomicBatches(t *testing.T) {
 	defer os.RemoveAll(base)
 	pl := &pool{base: base}
 	defer pl.close()
-	stats.Check(t, stats.Budget{Quick: 30, Thorough: 400},
+	stats.Check(t, stats.Budget{Quick: 80, Thorough: 400},
 		"writer commits generations of a key group via Batch/Update/Write while 3 readers per backend read through snapshots and store iterators; every consistent view must show a single generation; non-trivial = readers observed >= 2 different generations during the case",
 		func(rt *rapid.T, c *stats.Case) {
 			bk := pl.get()
